@@ -60,6 +60,14 @@ def main(tier: str) -> int:
         for beh in behs:
             res = writer.replay_stepwise(beh, c, writer.Subst(), delimited=True, frame_size=fs)
             streams.append((f"pyjelly:{uni}/fs{fs}", res["bytes"], "rdflib" if uni.startswith("r11") else "generic"))
+    # frames of 128 bytes and more: the length prefix itself has 2 (or 3) bytes and can be cut in the middle
+    real = [x for x in writer.substitutions(seed) if x.label == "realistic"][0]
+    for uni, fs, n in (("r11-triples", 6, 14), ("r11-quads", 9, 20)) + ((("mix-triples", 400, 900),) if tier == "thorough" else ()):
+        c = U.SIM[uni]
+        behs, _ = writer.simulate(c, num=(1 if tier == "quick" else 4), hist_len=n, seed=seed + 1010)
+        for beh in behs[:(1 if tier == "quick" else 4)]:
+            res = writer.replay_stepwise(beh, c, real, delimited=True, frame_size=fs)
+            streams.append((f"pyjelly:{uni}/fs{fs}/long-iris", res["bytes"], "rdflib" if uni.startswith("r11") else "generic"))
     for name, c in producer.configs(rdf11=True)[:3]:
         behs, _ = producer.simulate(c, num=(3 if tier == "quick" else 15), seed=seed + 100, hist_len=12)
         for beh in behs[: (2 if tier == "quick" else 10)]:
@@ -87,8 +95,10 @@ def main(tier: str) -> int:
     samples = []
     for rec, (label, integ, data, cut, exc) in zip(records, meta):
         v = verdicts[rec["id"]]
+        starts = [0] + rec["ends"][:-1]
+        in_prefix = any(st < cut < st + (1 if e - st < 129 else 2 if e - st < 16386 else 3) for st, e in zip(starts, rec["ends"]))
         where = ("start" if cut == 0 else "first-three-bytes" if cut < 3 else "frame-boundary" if cut in rec["ends"] else
-                 "inside-length-or-payload")
+                 "inside-multibyte-length-prefix" if in_prefix else "inside-length-or-payload")
         classes.add((label.split("/")[0], integ, where, rec["outcome"]))
         if v["verdict"] != "ok":
             run.violation({"clause": v["verdict"], "integ": integ, "cut_class": where},
@@ -98,6 +108,8 @@ def main(tier: str) -> int:
             run.model_drift(f"cut {cut} ({where}) of {label}: expected the parser to {v['expect']}, it did {rec['outcome']}")
         if len(samples) < 3 and where == "inside-length-or-payload" and rec["yielded"] > 0:
             samples.append({"stream": label, "cut": cut, "of": len(data), "yielded": rec["yielded"], "outcome": rec["outcome"]})
+    if not any(cls[2] == "inside-multibyte-length-prefix" for cls in classes):
+        env.machinery_failure("C10: no cut inside a multi-byte length prefix was exercised (no frame of 128+ bytes)")
     return run.finish({
         "evaluations": len(records), "distinct_nontrivial": len({(m[0], m[1], m[3]) for m in meta}),
         "rule": "every byte offset 0..len of every real delimited stream (pyjelly output with frame sizes 1-3 for all physical types, and reference-encoder streams) is a cut; "
